@@ -287,7 +287,7 @@ func (r *Run) Finish(minEvals int64) int {
 	}
 	out := map[string]any{
 		"property_id": r.Prop, "tier": r.Tier, "seed": r.Seed, "level": r.Level,
-		"coverage": cov, "assumptions": r.assume,
+		"coverage": cov, "assumptions": append([]string{}, r.assume...),
 		"wall_s":     time.Since(r.start).Seconds(),
 		"violations": len(r.violations),
 	}
